@@ -1,8 +1,173 @@
 import GceTcb.Base.Line
-/- Driver handler for stream `c20` (stub: replaced when the property's model lands). -/
+import GceTcb.Model.Kms
+/- Driver handler for stream `c20` (Cloud KMS signing, wipeout, bootstrap, rotation). -/
 namespace GceTcb.Drive.C20
-open GceTcb
+open GceTcb GceTcb.Kms
 
-def handle (_f : Fields) : String := "unimplemented"
+def natList (s : String) : List Nat :=
+  if s == "" then [] else (s.splitOn ",").map fun x => x.toNat?.getD 0
+
+/-- exactly `n` groups of a ';'-separated field -/
+def groups (s : String) (n : Nat) : List String :=
+  let g := s.splitOn ";"
+  (List.range n).map fun i => g.getD i ""
+
+def tokIdx (t : String) : Option Nat :=
+  match t.toList with
+  | [] => some 0
+  | 't' :: ds => (String.ofList ds).toNat?
+  | _ => none
+
+def tokOf (m : Nat) : String := if m = 0 then "" else s!"t{m}"
+
+def sumNat (l : List Nat) : Nat := l.foldl (· + ·) 0
+
+/-- The pager the harness's KMS double implements for a page plan: page `m` has `plan[m]` items, its
+    token is `t<m>` ("" for the first), the last page ends the listing (or, when `cyc`, points back at
+    page 1). Unknown tokens give an empty last page. -/
+def mkPager (xs : List String) (plan : List Nat) (cyc : Bool) (total : Nat) : Pager String := fun tok =>
+  match tokIdx tok with
+  | none => ⟨[], "", total⟩
+  | some m =>
+    if m < plan.length then
+      ⟨(xs.drop (sumNat (plan.take m))).take (plan.getD m 0),
+       if m + 1 < plan.length then tokOf (m + 1) else if cyc && decide (2 ≤ plan.length) then "t1" else "",
+       total⟩
+    else ⟨[], "", total⟩
+
+def showCall : Call → String
+  | .listKeys t => s!"LK:{t}"
+  | .listVers k t => s!"LV:{k}:{t}"
+  | .destroy n => s!"D:{n}"
+  | .createRing => "CR"
+  | .createKey id hsm => s!"CK:{id}:{if hsm then "hsm" else "sw"}"
+  | .createVer p => s!"CV:{p}"
+  | .get n => s!"G:{n}"
+  | .setIam k => s!"IAM:{k}"
+
+def showLog (log : List Ev) : String :=
+  ",".intercalate (log.reverse.map fun e => showCall e.call ++ (if e.ok then "" else "!"))
+
+def isList : Call → Bool
+  | .listKeys _ => true
+  | .listVers _ _ => true
+  | _ => false
+
+def showPs (log : List Ev) : String :=
+  if log.any (fun e => isList e.call) then toString Gen.Kms.keyPageSize else "-"
+
+def parseStyle (f : Fields) : Style :=
+  if f.get "style" == "old" then .old Gen.Kms.keyPageSize else .fixed
+
+/-- Fault script.  The harness's watchdog panics on call number `limit + 1`; here every call from index
+    `limit` on fails instead, which ends every loop promptly, and a run whose log is longer than `limit`
+    is reported as `diverged` (up to that call both sides behave identically). -/
+def failFn (f : Fields) : Nat → Bool :=
+  let l := natList (f.get "fail")
+  let limit := f.nat "limit"
+  fun i => l.contains i || decide (limit ≤ i)
+
+def fuelOf (f : Fields) : Nat := f.nat "limit" + 2
+
+def verName (k : String) (j : Nat) : String := s!"{k}/{j + 1}"
+
+def lookupStr (l : List (String × Nat)) (n : String) : Nat :=
+  match l.find? (fun p => p.1 == n) with
+  | some p => p.2
+  | none => 0
+
+def dummyVer : Ver := ⟨"", 0⟩
+
+def handleWipeout (f : Fields) : String :=
+  let nk := f.nat "nk"
+  let keyNames := (List.range nk).map fun i => s!"k{i}"
+  let vstates := (groups (f.get "vs") nk).map natList
+  let vplans := (groups (f.get "vplans") nk).map natList
+  let cyc := f.bool "cyc"
+  let names := fun (i : Nat) => (List.range (vstates.getD i []).length).map (verName s!"k{i}")
+  let table : List (String × Nat) :=
+    (List.range nk).flatMap fun i => (names i).zip (vstates.getD i [])
+  let keyIdx := fun (k : String) => (keyNames.findIdx? (· == k)).getD nk
+  let svc : Svc := {
+    keys := mkPager keyNames (natList (f.get "kplan")) false nk
+    vers := fun k => mkPager (names (keyIdx k)) (vplans.getD (keyIdx k) []) cyc (names (keyIdx k)).length
+    fail := failFn f
+    ringExists := false, keyExists := false, createVer := dummyVer, gets := fun _ _ => none }
+  let st : St := ⟨lookupStr table, []⟩
+  match wipeout (parseStyle f) svc (fuelOf f) st with
+  | none => "res=diverged"
+  | some a =>
+    if a.st.log.length > f.nat "limit" then "res=diverged" else
+    let final := ";".intercalate ((List.range nk).map fun i =>
+      ",".intercalate ((names i).map fun n => toString (a.st.state n)))
+    s!"res={if a.failed then "err" else "ok"} ps={showPs a.st.log} log={showLog a.st.log} final={final}"
+
+def getsFn (f : Fields) : Nat → String → Option Ver :=
+  let l := natList (f.get "gets")
+  let gname := f.bool "gname"
+  fun i name => if i < l.length then some ⟨if gname then "X" else name, l.getD i 0⟩ else none
+
+def showBoot (limit : Nat) (r : St × Boot) : String :=
+  if r.1.log.length > limit then "res=diverged" else
+  match r.2 with
+  | .diverged => "res=diverged"
+  | .ok n => s!"res=ok:{n} ps={showPs r.1.log} log={showLog r.1.log}"
+  | .err _ => s!"res=err ps={showPs r.1.log} log={showLog r.1.log}"
+
+def bootSvc (f : Fields) : Svc × St :=
+  let states := natList (f.get "vs")
+  let names := (List.range states.length).map (verName "K")
+  ({ keys := fun _ => ⟨[], "", 0⟩
+     vers := fun _ => mkPager names (natList (f.get "plan")) (f.bool "cyc") (f.nat "total")
+     fail := failFn f
+     ringExists := f.bool "ring", keyExists := f.bool "ck"
+     createVer := ⟨"K/c", f.nat "cv"⟩
+     gets := getsFn f },
+   ⟨lookupStr (names.zip states), []⟩)
+
+def handleBoot (f : Fields) : String :=
+  let (svc, st) := bootSvc f
+  let sty := parseStyle f
+  let keep := f.bool "keep"
+  if f.get "kind" == "root" then
+    showBoot (f.nat "limit") (createNewRootKey sty svc keep "kid" "K" (fuelOf f) (f.nat "fuel") st)
+  else
+    showBoot (f.nat "limit") (createFirstSigningKey sty svc keep "kid" "K" (fuelOf f) (f.nat "fuel") st)
+
+def handleRotate (f : Fields) : String :=
+  let (svc, st) := bootSvc f
+  showBoot (f.nat "limit") (createNewSigningKeyVersion svc "K" (f.nat "fuel") st)
+
+def parseOpts (s : String) : SignerOpts :=
+  match s.splitOn ":" with
+  | ["nilpss"] => .nilPss
+  | ["pss", a, b] =>
+    match a.toInt?, b.toNat? with
+    | some x, some y => .pss x y
+    | _, _ => .other
+  | _ => .other
+
+def handleSign (f : Fields) : String :=
+  let resp : SignResp := ⟨f.bytes "sig", f.int "crc", f.bool "vd", f.bool "vg", f.get "rname"⟩
+  let svc : SignReq → Option SignResp := fun _ => if f.bool "rpc" then some resp else none
+  let r := sign crc32c svc (f.get "name") (f.bytes "digest") (parseOpts (f.get "opts"))
+  let req := match r.sent with
+    | none => "none"
+    | some q => s!"{q.name}:{hexEncode q.digest}:{q.digestCrc}:{q.dataCrc}"
+  let out := match r.out with
+    | .sig s => s!"sig:{hexEncode s}"
+    | .err _ => "err"
+    | .panic => "panic"
+  s!"req={req} out={out}"
+
+def handle (f : Fields) : String :=
+  match f.get "op" with
+  | "crc" => toString (crc32c (f.bytes "data"))
+  | "flip" => s!"{hexEncode (flipBit (f.bytes "data") (f.nat "bit"))} {crc32c (flipBit (f.bytes "data") (f.nat "bit"))}"
+  | "sign" => handleSign f
+  | "wipeout" => handleWipeout f
+  | "boot" => handleBoot f
+  | "rotate" => handleRotate f
+  | _ => "bad-op"
 
 end GceTcb.Drive.C20
